@@ -56,10 +56,30 @@ func replay(k *kase, i int) string {
 // debugging aid: `vh c15-example --skip=K-C15-or,C15-plain-gen,…` drops the diffs of these classes / components
 var skip = map[string]bool{}
 
+// addDiff: every unclassified diff goes into the report; of each known-finding class only the first
+// maxPerClass witnesses do (the report keeps 25 diffs: classified ones must never crowd out an
+// unclassified one); all of them are counted in stats and in Extra["classified_diffs_total"].
+const maxPerClass = 3
+
+var perClass = map[string]int{}
+
 func addDiff(rep *vh.Report, d vh.Diff) {
-	if !skip[d.Component] && (d.Class == "" || !skip[d.Class]) {
-		rep.AddDiff(d)
+	if skip[d.Component] || (d.Class != "" && skip[d.Class]) {
+		return
 	}
+	if d.Class != "" {
+		perClass[d.Class]++
+		total := 0
+		for _, n := range perClass {
+			total += n
+		}
+		rep.Extra["classified_diffs_total"] = fmt.Sprint(total)
+		rep.Extra["diffs_of_"+d.Class] = fmt.Sprint(perClass[d.Class])
+		if perClass[d.Class] > maxPerClass {
+			return
+		}
+	}
+	rep.AddDiff(d)
 }
 
 func Run(args []string) {
@@ -94,7 +114,7 @@ func Run(args []string) {
 	}
 	go func() {
 		defer close(reqs)
-		nA := vh.Pick(10000, 300000)
+		nA := vh.Pick(10000, 600000)
 		for i := 0; i < nA; i++ {
 			r := rand.New(rand.NewSource(seed*1000003 + 1515 + int64(i)*7919))
 			g := c09.RandomGraph(r, 3, c09.Options{Enums: true, OrContainer: true, StringRules: true, ManyKeys: true})
@@ -109,7 +129,7 @@ func Run(args []string) {
 			}
 			emit(k, req)
 		}
-		nB := vh.Pick(4000, 100000)
+		nB := vh.Pick(4000, 200000)
 		for i := 0; i < nB; i++ {
 			r := rand.New(rand.NewSource(seed*1000003 + 1516 + int64(i)*7919))
 			text, want := plainSchema(r)
